@@ -142,6 +142,16 @@ func parseObjects(
 		}
 
 		if len(obj.Object) != 0 {
+			// The collector (phaseCollector.AddObjects) relies on this annotation being well-formed.
+			if _, cmErr := parseConditionMapAnnotation(&obj); cmErr != nil {
+				err = packagetypes.ViolationError{
+					Reason:  packagetypes.ViolationReasonInvalidConditionMap,
+					Details: cmErr.Error(),
+					Path:    path,
+					Index:   ptr.To(idx),
+				}
+				return
+			}
 			obj.SetLabels(labels.Merge(obj.GetLabels(), commonLabels(manifest, tmplCtx.Package.Name)))
 			objects = append(objects, obj)
 		}
